@@ -83,6 +83,11 @@ def run_pipeline(chk, want, quick_cases=1500, full_cases=60000, nconc=(3, 8),
 def run(chk):
     run_pipeline(chk, want=("C01",))
     run_big_slices(chk, 6000 if chk.tier == "thorough" else 600)
+    if chk.tier == "thorough":
+        import suite
+        ev = suite.trace_suite(chk)
+        if ev:
+            chk.notes["suite_slices_validated"] = suite.validate_slices(chk, ev)
 
 
 def replay(doc):
